@@ -175,6 +175,12 @@ func applyCloneMut(root any, n any, m CloneMut) (applied bool) {
 				return false
 			}
 			x.Replace(m.A%cnt, v)
+		case "clearrekey":
+			// emptied and refilled up to the same length with other elements
+			x.Clear()
+			for i := 0; i < cnt; i++ {
+				x.Add(fmt.Sprintf("refilled %d", i))
+			}
 		case "clearrefill":
 			// emptied and refilled with the same elements
 			old := x.Slice()
@@ -244,6 +250,14 @@ func applyCloneMut(root any, n any, m CloneMut) (applied bool) {
 			val := x.Get(old)
 			x.Unset(old)
 			x.Set(old+"'", val)
+		case "clearrekey":
+			// emptied and refilled up to the same count with other keys (same values): a reader that remembers
+			// anything about the former keys is now wrong
+			d := x.Dict()
+			x.Clear()
+			for _, k := range sortedKeys2(d) {
+				x.Set(k+"\u2032", d[k])
+			}
 		case "clearrefill":
 			// emptied and refilled with the same fields
 			d := x.Dict()
